@@ -810,7 +810,7 @@ def judge(ctx, case, evo, interp, aux, outs):
                     a, b = evo["files"][f].decode().splitlines(), interp["files"][f].decode().splitlines()
                     k = next((i for i in range(min(len(a), len(b))) if a[i] != b[i]), min(len(a), len(b)))
                     ctx.mismatch(case, f"{f} is not bit-identical to the interpreted plan (first difference in line {k})",
-                                 (a[k] if k < len(a) else None), (b[k] if k < len(b) else None) + " plan: " + plan_line)
+                                 (a[k] if k < len(a) else None), str(b[k] if k < len(b) else None) + " plan: " + plan_line)
                     break
         for s in plan_line[3:].split("|")[0].split():
             ctx.count("branch", "step:" + s.split(":")[0])
